@@ -2063,6 +2063,9 @@ func (r *inlineByteReader) next() bool {
 	if node.Kind() != IndentKind && r.pos+1 < node.Span().End {
 		if r.source[r.pos] == 0 && r.source[r.pos+1] == 0 {
 			r.virtualPos = (r.virtualPos + 1) % len(nullReplacementString)
+		} else {
+			// Leaving a run of padded NUL bytes: the next run starts a new replacement character.
+			r.virtualPos = 0
 		}
 		r.prevPos = r.pos
 		r.pos++
